@@ -115,3 +115,15 @@ Example C14_rejected_ex :     (* a; a; b  ==>  the second a is rejected, b = 1 *
 Proof. eexists. vm_compute. repeat split. Qed.
 Example C14_err_ex : exists e, run_members false [(nm_a, Some s_max31); (nm_b, None)] = Ok (e, [1%nat]).
 Proof. eexists. vm_compute. reflexivity. Qed.
+(* member names are arbitrary byte strings and the table of a type is computed from its own member list only:
+   the one-member list ["a,b"] and the two-member list ["a"; "b"], or ["a=2"; "b"] and [a { value 2 }; "b"], which read
+   the same when names and numbers are strung together, have different tables (the several-types family of the
+   correspondence run, enumset, holds such lists next to each other in one Modules set) *)
+Definition nm_a_comma_b : str := [97; 44; 98]%N.   (* "a,b" *)
+Definition nm_a_eq_2 : str := [97; 61; 50]%N.      (* "a=2" *)
+Example C14_separator_names_ex :
+  (exists e, run_members false [(nm_a_comma_b, None)] = Ok (e, []) /\ ToInt e = [(nm_a_comma_b, 0)]) /\
+  (exists e, run_members false [(nm_a, None); (nm_b, None)] = Ok (e, []) /\ ToInt e = [(nm_a, 0); (nm_b, 1)]) /\
+  (exists e, run_members false [(nm_a_eq_2, None); (nm_b, None)] = Ok (e, []) /\ ToInt e = [(nm_a_eq_2, 0); (nm_b, 1)]) /\
+  (exists e, run_members false [(nm_a, Some [50%N]); (nm_b, None)] = Ok (e, []) /\ ToInt e = [(nm_a, 2); (nm_b, 3)]).
+Proof. repeat split; eexists; vm_compute; repeat split. Qed.
